@@ -17,4 +17,6 @@ for d in engine/checks/*/; do
     ( cd engine && $G test -race -c -vet=off -tags verif -o /dev/null ./checks/$rpkg/ ) || rc=1
   fi
 done
+# C25's wiring phase runs one test inside scion's package main of the control service: warm its dependencies
+( cd /repo && $G test -tags verif -vet=off -count=1 -run '^$' ./control/cmd/control/ >/dev/null ) || rc=1
 exit $rc
